@@ -293,6 +293,7 @@ fn param_grid(r: &mut Rng, extra: usize) -> Vec<D> {
     let scales = [1e-3, 0.1, 1.0, 4.0, 250.0];
     for &m in &locs { for &s in &scales { v.push(Normal(m, s)); v.push(Gumbel(m, s)); } }
     for &a in &shapes { for &b in &rates { v.push(Gamma(a, b)); } }
+    for &a in &[60.0, 100.0, 150.0] { for &b in &rates { v.push(Gamma(a, b)); } }
     for &a in &shapes { for &b in &shapes { v.push(Beta(a, b)); } }
     for k in (1..=12).chain([15, 20, 30, 50, 64, 100, 150, 199, 200]) { v.push(ChiSquared(k)); }
     for n in [1.0, 1.5, 2.0, 2.5, 3.0, 4.0, 5.0, 7.5, 10.0, 30.0, 100.0, 200.0] { v.push(T(n)); }
@@ -330,12 +331,14 @@ fn points_cont(d: &D, r: &mut Rng, n: usize) -> Vec<f64> {
             let (a, b) = match *d { Gamma(a, b) => (a, b), ChiSquared(k) => (k as f64 / 2.0, 0.5), _ => unreachable!() };
             let (mean, sd) = (a / b, a.sqrt() / b);
             p.extend([0.0, -0.0, -1.0 / b, -1e3, mean, mean + 10.0 * sd, mean + 30.0 * sd, 1e-9 / b, 1e-3 / b]);
+            // far tails, as far as the Normal's 1e4 standard deviations: the density there is tiny (or rounds to 0) but never inf / NaN
+            for z in [60.0, 100.0, 300.0, 1e3, 1e4] { p.push(mean + z * sd); }
             for _ in 0..n { p.push((mean + r.uniform(-4.0, 8.0) * sd).abs()); p.push(mean * logu(r, 1e-4, 1.0)); }
         }
-        Beta(..) => { p.extend([0.0, 1.0, -0.5, 1.5, 0.5, 1e-9, 1.0 - 1e-9, -1e-300, 1.0 + 1e-15]); for _ in 0..2 * n { p.push(r.unit()); } }
-        T(nu) => { let s = if nu > 2.0 { (nu / (nu - 2.0)).sqrt() } else { 3.0 }; p.extend([0.0, 1.0, -1.0, 5.0 * s, -30.0 * s, 1e3, -1e6]); for _ in 0..2 * n { p.push(r.uniform(-8.0, 8.0) * s); } }
-        Pareto(a, m) => { p.extend([m, m * (1.0 - 1e-12), m / 2.0, 0.0, -m, m * 2.0, m * 1e3, m * (1.0 + 1e-9)]); for _ in 0..2 * n { p.push(m * (r.uniform(0.0, 12.0 / a.min(4.0))).exp()); } }
-        Exponential(l) => { p.extend([0.0, -0.0, -1.0 / l, -1e3, 1.0 / l, 30.0 / l, 300.0 / l]); for _ in 0..2 * n { p.push(r.uniform(0.0, 12.0) / l); } }
+        Beta(..) => { p.extend([0.0, 1.0, -0.5, 1.5, 0.5, 1e-9, 1.0 - 1e-9, -1e-300, 1.0 + 1e-15, 1e-100, 1e-300, 1.0 - 1e-16]); for _ in 0..2 * n { p.push(r.unit()); } }
+        T(nu) => { let s = if nu > 2.0 { (nu / (nu - 2.0)).sqrt() } else { 3.0 }; p.extend([0.0, 1.0, -1.0, 5.0 * s, -30.0 * s, 1e3, -1e6, 1e30, -1e100]); for _ in 0..2 * n { p.push(r.uniform(-8.0, 8.0) * s); } }
+        Pareto(a, m) => { p.extend([m, m * (1.0 - 1e-12), m / 2.0, 0.0, -m, m * 2.0, m * 1e3, m * (1.0 + 1e-9), m * 1e30, m * 1e100]); for _ in 0..2 * n { p.push(m * (r.uniform(0.0, 12.0 / a.min(4.0))).exp()); } }
+        Exponential(l) => { p.extend([0.0, -0.0, -1.0 / l, -1e3, 1.0 / l, 30.0 / l, 300.0 / l, 1e3 / l, 1e4 / l]); for _ in 0..2 * n { p.push(r.uniform(0.0, 12.0) / l); } }
         Uniform(a, b) => { p.extend([a, b, (a + b) / 2.0, a - (b - a), b + (b - a), a - 1e3, b + 1e3]); for _ in 0..n { p.push(r.uniform(a, b)); } }
         _ => panic!("not continuous"),
     }
